@@ -3,7 +3,6 @@
  * (a write beyond it fails the query with env.file_capacity).  Natively (replay) the harness uses real libc streams
  * over a temporary file with the same contents (see native_rt.cpp), so this file is empty there. */
 #include "vp_rt.h"
-#ifdef __CPROVER__
 #ifndef VP_FILE_MAX
 #define VP_FILE_MAX 256
 #endif
@@ -63,4 +62,3 @@ uint32_t X_fseek(uint8_t* f, uint64_t off, uint32_t whence) {
 uint64_t X_ftell(uint8_t* f) { return (uint64_t)vp_file_pos; }
 uint32_t X_fclose(uint8_t* f) { VP_CHECK(f == vp_FILE_obj && vp_file_open, "env.fclose_once"); vp_file_open = 0; return 0; }
 uint32_t X_fputs(uint8_t* s, uint8_t* f) { uint64_t n = 0; while (s[n]) n++; X_fwrite(s, 1, n, f); return 1; }
-#endif
